@@ -40,6 +40,7 @@ type e20Suite struct {
 	r      *Rng
 	t      *Trace
 	k      erc20keeper.Keeper
+	hooks  erc20keeper.Hooks // ONE hooks value per keeper, for the keeper's lifetime, as app.go wires it (EvmKeeper.SetHooks)
 	evm    *ScriptEVM // surface M only
 	tok    tokSide
 	honest bool // no scripted deviation, no forged receipt, no self-destruct, closed-world funding (C03)
@@ -53,6 +54,7 @@ type e20Suite struct {
 	mod    sdk.AccAddress
 	tokens []common.Address // external token addresses t0..t3
 	kaddr  []common.Address // CREATE addresses of the module k0..k39
+	aliasDen []string       // "erc20/<address of k0..k3>"
 	coins  []string         // coin denominations in play
 	hexDen []string         // hex-address-shaped denominations in play
 	fresh  []sdk.AccAddress // addresses without an account
@@ -96,6 +98,13 @@ func (s *e20Suite) newWorld() {
 			s.hexDen = append(s.hexDen, h)
 		}
 	}
+	// coins that merely NAME a contract the module deploys ("erc20/<address of k0..k3>"): unrelated to any pair — the pair of
+	// such a contract is for the native coin it wraps — and harmless to the backing of every pair; a lookup that takes the
+	// name for the contract would convert them into that pair's tokens
+	s.aliasDen = nil
+	for n := 0; n < 4; n++ {
+		s.aliasDen = append(s.aliasDen, "erc20/"+s.kaddr[n].String())
+	}
 	s.coins = []string{"acoin", "bcoin", ibcDenomA, "ccoin", "dcoin", "aCANTOx"}
 	fund := sdk.NewCoins()
 	big1 := pow10(30)
@@ -111,6 +120,9 @@ func (s *e20Suite) newWorld() {
 		fund = fund.Add(sdk.NewCoin(d, big1))
 	}
 	for _, d := range s.hexDen {
+		fund = fund.Add(sdk.NewCoin(d, big1))
+	}
+	for _, d := range s.aliasDen {
 		fund = fund.Add(sdk.NewCoin(d, big1))
 	}
 	fund = fund.Add(sdk.NewCoin("stake", pow10(24)))
@@ -162,6 +174,7 @@ func (s *e20Suite) newWorld() {
 			w.App.GetSubspace(erc20types.ModuleName), w.App.AccountKeeper, w.App.BankKeeper, s.evm, s.gov)
 		s.tok = &scriptSide{ScriptEVM: s.evm, s: s}
 	}
+	s.hooks = s.k.Hooks()
 	// external honest tokens t0..t3 exist from the start; holders get balances
 	for i := 0; i < 4; i++ {
 		dep := common.BytesToAddress(w.Users[i])
@@ -206,7 +219,7 @@ func (t *scriptSide) HolderTx(ctx sdk.Context, c, holder common.Address, call st
 		return fmt.Errorf("execution reverted")
 	}
 	msg := ethtypes.NewMessage(holder, &c, 0, big.NewInt(0), 100000, big.NewInt(0), big.NewInt(0), big.NewInt(0), nil, nil, false)
-	return t.s.k.Hooks().PostTxProcessing(ctx, msg, &ethtypes.Receipt{Logs: logs})
+	return t.s.hooks.PostTxProcessing(ctx, msg, &ethtypes.Receipt{Logs: logs})
 }
 
 func (t *scriptSide) Deploy(ctx sdk.Context, c, deployer common.Address, supply *big.Int, bad bool) error {
@@ -523,7 +536,7 @@ func (s *e20Suite) amountUpTo(bal sdkmath.Int) sdkmath.Int {
 var (
 	devAny    = []string{"err", "revert"}
 	devBal    = []string{"err", "revert", "bal+1", "bal-1", "balnil", "balbad"}
-	devCommit = []string{"err", "revert", "gas", "amt+1", "amt-1", "noop", "false", "falsemoved", "retempty", "retbad", "ret2", "approval", "approvalfirst", "approval1", "approval4", "notopics", "otherlog", "credit"}
+	devCommit = []string{"err", "revert", "revertmoved", "gas", "amt+1", "amt-1", "noop", "false", "falsemoved", "retempty", "retbad", "ret2", "approval", "approvalfirst", "approval1", "approval4", "notopics", "otherlog", "credit"}
 )
 
 func (s *e20Suite) pickDev(kind string, num, den int) Dev {
@@ -657,6 +670,8 @@ func (s *e20Suite) opConvertCoin() {
 		denom = "erc20/" + s.tokens[r.Intn(nTokens)].String()
 	case 9:
 		denom = "stake"
+	case 10, 11, 12:
+		denom = s.aliasDen[r.Intn(len(s.aliasDen))]
 	}
 	bal := sdkmath.ZeroInt()
 	if sdk.ValidateDenom(denom) == nil {
@@ -1082,7 +1097,7 @@ func (s *e20Suite) opHook() {
 	pre := s.observe()
 	out := s.w.Deliver(func(ctx sdk.Context) error {
 		msg := ethtypes.NewMessage(common.BytesToAddress(s.user()), &logs[0].Address, 0, big.NewInt(0), 100000, big.NewInt(0), big.NewInt(0), big.NewInt(0), nil, nil, false)
-		return s.k.Hooks().PostTxProcessing(ctx, msg, &ethtypes.Receipt{Logs: logs})
+		return s.hooks.PostTxProcessing(ctx, msg, &ethtypes.Receipt{Logs: logs})
 	})
 	s.emit("hook", "logs="+strings.Join(lt, ","), dev, out, "", pre)
 }
@@ -1184,7 +1199,7 @@ func (s *e20Suite) opTxBatch() {
 			logs = append(logs, l...)
 		}
 		msg := ethtypes.NewMessage(common.BytesToAddress(holder), &c, 0, big.NewInt(0), 100000, big.NewInt(0), big.NewInt(0), big.NewInt(0), nil, nil, false)
-		return s.k.Hooks().PostTxProcessing(ctx, msg, &ethtypes.Receipt{Logs: logs})
+		return s.hooks.PostTxProcessing(ctx, msg, &ethtypes.Receipt{Logs: logs})
 	})
 	s.emit("txb", fmt.Sprintf("c=%s holder=%s calls=%s", s.alias(c.Bytes()), s.alias(holder), strings.Join(toks, ",")), Dev{}, out, "", pre)
 }
